@@ -81,6 +81,8 @@ class LexModel:
                 return sub[1] == c
             if sub[0] == "bind":
                 return True
+            if sub[0] == "bind@" and len(sub) == 3:        # c @ ('a' | 'b'): matches what the sub-pattern matches
+                return LexModel._char_pat(sub[2], c)
             if sub[0] == "prange" and sub[4] == "char":
                 lo, hi = int(sub[1]), int(sub[2])
                 if sub[3] == "Included":
